@@ -21,7 +21,10 @@ CfgSeq == SetToSeq(Cfgs)
 SigTyps == Typs \ {"absent"}          \* typed entries (untyped ones: see DESIGN.md, C02 limits)
 SigParams == ParamsOver(SigTyps, Defs \ {"code"}, {"plain", "dot"})
 SmallParams == ParamsOver({"int", "str", "Opt_int"}, {"absent", "None", "int_pos", "str"}, {"plain"})
-Rets == {NoRet} \cup [typ : {"int", "Opt_str"}, def : {"absent"}, doc : {"plain"}]
+\* a return entry's default is the returned value: a literal, or an expression carried as a code-quoted string
+\* ("expr": a dot-free expression such as ```max(1, 2)```)
+RetDefs(t) == IF t = "int" THEN {"absent", "expr", "int_pos"} ELSE {"absent", "expr", "str", "None"}
+Rets == {NoRet} \cup {r \in [typ : {"int", "Opt_str"}, def : {"absent", "expr", "int_pos", "str", "None"}, doc : {"plain"}] : r.def \in RetDefs(r.typ)}
 ParamSeqs == {<<>>} \cup {<<p>> : p \in SigParams}
              \cup (IF MaxParams >= 2
                    THEN {<<p, r>> : p \in SigParams, r \in (IF Reduced THEN SmallParams ELSE SigParams)}
@@ -34,6 +37,7 @@ vars == <<cfg, i, pc, out, fired>>
 Init == /\ cfg \in {CfgSeq[k] : k \in {j \in 1..Len(CfgSeq) : j % NShards = Shard}}
         /\ \E ps \in ParamSeqs, r \in Rets :
               /\ InDomain(cfg, ps)
+              /\ (Len(ps) >= 2 => (r = NoRet \/ r.def = "absent"))      \* return defaults are explored with <= 1 parameter
               /\ i = [doc |-> "one", params |-> ps, ret |-> r]
         /\ pc = "start" /\ out = "none" /\ fired = {}
 
